@@ -22,6 +22,7 @@ import (
 
 	corev1alpha1 "package-operator.run/apis/core/v1alpha1"
 	manifestsv1alpha1 "package-operator.run/apis/manifests/v1alpha1"
+	"package-operator.run/internal/apis/manifests"
 	"package-operator.run/internal/constants"
 	"package-operator.run/internal/dynamiccache"
 
@@ -210,6 +211,10 @@ type World struct {
 
 	PassSeq int
 	Passes  []*PassInfo
+
+	// Puller / Env survive restarts (they model the registry and the cluster environment).
+	Puller *Puller
+	Env    *manifests.PackageEnvironment
 }
 
 // Reconciler is the common shape of all controllers.
